@@ -67,6 +67,7 @@ struct RecVisitor {
 macro_rules! rec_visit {
     (@body $self:ident $node:ident -) => {};
     (@body $self:ident $node:ident $g:ident) => { $self.$g($node) };
+    (@names $( $m:ident $g:tt $t:ident ; )*) => { &[ $( stringify!($t) ),* ] };
     ($( $m:ident $g:tt $t:ident ; )*) => {
         $( fn $m(&mut self, node: $t<TextRange>) {
             self.ev.push(format!("{}@{}", stringify!($t), rng(&node.range)));
@@ -74,8 +75,10 @@ macro_rules! rec_visit {
         } )*
     };
 }
-impl Visitor<TextRange> for RecVisitor {
-    rec_visit! {
+/// the visit methods this harness overrides (method, generic method or `-`, node type)
+macro_rules! visit_methods {
+    ($mac:ident $($pre:tt)*) => {
+        $mac! { $($pre)*
         visit_stmt_function_def generic_visit_stmt_function_def StmtFunctionDef;
         visit_stmt_async_function_def generic_visit_stmt_async_function_def StmtAsyncFunctionDef;
         visit_stmt_class_def generic_visit_stmt_class_def StmtClassDef;
@@ -150,8 +153,14 @@ impl Visitor<TextRange> for RecVisitor {
         visit_type_param_type_var generic_visit_type_param_type_var TypeParamTypeVar;
         visit_type_param_param_spec generic_visit_type_param_param_spec TypeParamParamSpec;
         visit_type_param_type_var_tuple generic_visit_type_param_type_var_tuple TypeParamTypeVarTuple;
-    }
+        }
+    };
 }
+impl Visitor<TextRange> for RecVisitor {
+    visit_methods!(rec_visit);
+}
+/// node kinds whose visits are recorded (sent to the model side so that it reports the same kinds)
+const VISIT_KINDS: &[&str] = visit_methods!(rec_visit @names);
 
 fn op_visit(src: &str) -> String {
     let m = match parse_mod(src) {
@@ -289,6 +298,7 @@ fn handle(ws: &[&str]) -> String {
             Some(m) => format!("{:?}", m),
             None => "noparse".into(),
         },
+        "vkinds" => VISIT_KINDS.join(","),
         "fold" => op_fold(&src),
         "visit" => op_visit(&src),
         "walk" => op_walk(&src),
